@@ -546,8 +546,8 @@ def text_matches(obs_text, ideal, real, name_ties=False):
                     row = '*' + row[1:]
                 if row.rstrip() == o:
                     ok = True
-                elif name_ties and re.sub(r'\[[^\]]*\]', '[]', row.rstrip()) == re.sub(r'\[[^\]]*\]', '[]', o):
-                    ok = True                 # same numbers, another item named: a near-tie between inexact doubles
+                elif name_ties and re.sub(r' +', ' ', re.sub(r'\[[^\]]*\]', '[]', row.rstrip())) == re.sub(r' +', ' ', re.sub(r'\[[^\]]*\]', '[]', o)):
+                    ok = True                 # same numbers, another item named: a near-tie between inexact doubles (column padding depends on the name length)
         if not ok:
             return False
     return True
@@ -1489,6 +1489,18 @@ def oracle(c):
             return {'expect': True, 'kind': 'violated', 'detail': (badv if vsel else []) + (badc if csel else [])}
         if vsel and badi:
             return {'expect': True, 'kind': 'int-violated', 'detail': badi}
+        if vsel and (real & 1):
+            # "flattening is the identity" fails when the conversion added auxiliary variables (complementarity reformulated
+            # for an acceptance set without it): the realistic pass legitimately tests their bounds / integrality too, and the
+            # NL model says nothing about them -> no 'feasible' verdict when one of them is off (thorough seed 1, round 7)
+            for j, v in enumerate(f.vars):
+                if v['orig'] or j >= len(xseen):
+                    continue
+                xv = xseen[j]
+                if (v['lb'] not in (None, -INF) and not isinstance(v['lb'], float) and v['lb'] - xv > 0) or \
+                   (v['ub'] not in (None, INF) and not isinstance(v['ub'], float) and xv - v['ub'] > 0) or \
+                   (v['int'] and xv != cround(float(xv)) and abs(xv - F(cround(float(xv)))) > 0):
+                    return None
         return {'expect': False, 'kind': 'feasible', 'detail': None}
     # general models: relative tolerance 0, no intermediate/solver-side classes, variables and original constraints both selected
     if feastolrel != 0:
@@ -1699,7 +1711,7 @@ def proof_stage(ck):
     return ok, failing
 
 
-EXPECT_THEOREMS = 59
+EXPECT_THEOREMS = 63
 
 
 def run(ck):
